@@ -2,6 +2,8 @@
 //!
 //! Streams (`c11 <stream> --tier T --seed N --out DIR`):
 //!   rms         `Rms::{next,next_squared,reset,current,window_frames}` histories, std build
+//!   long        histories of 2^18+N .. 2^21+ frames through one detector without reset, checked natively frame by
+//!               frame against the naive recomputation; a 48-frame prefix of each also goes through the model
 //!   sig         `signal.rms(ring)` adaptor (`next` / `next_squared`), std build
 //!   sqrt        `FloatSample::sample_sqrt`, std build
 //!   rms_nostd   the same histories against dasp_* built with `default-features = false`
@@ -85,6 +87,8 @@ trait Smp: Sample + Copy + 'static {
     fn exact(self) -> f64;
     /// a random raw token of the given style
     fn gen(rng: &mut Rng, style: u32) -> u64;
+    /// the raw token of the sample nearest to the amplitude `x` (in [-1, 1])
+    fn raw_of(x: f64) -> u64;
 }
 fn gen_float(rng: &mut Rng, style: u32, big: f64, small_exp: i32) -> f64 {
     let u = rng.f64_unit() * 2.0 - 1.0;
@@ -103,12 +107,14 @@ impl Smp for f32 {
     fn from_raw(r: u64) -> Self { f32::from_bits(r as u32) }
     fn exact(self) -> f64 { self as f64 }
     fn gen(rng: &mut Rng, style: u32) -> u64 { (gen_float(rng, style, 1e9, 90) as f32).to_bits() as u64 }
+    fn raw_of(x: f64) -> u64 { (x as f32).to_bits() as u64 }
 }
 impl Smp for f64 {
     const NAME: &'static str = "f64";
     fn from_raw(r: u64) -> Self { f64::from_bits(r) }
     fn exact(self) -> f64 { self }
     fn gen(rng: &mut Rng, style: u32) -> u64 { gen_float(rng, style, 1e100, 600).to_bits() }
+    fn raw_of(x: f64) -> u64 { x.to_bits() }
 }
 impl Smp for i16 {
     const NAME: &'static str = "i16";
@@ -123,6 +129,7 @@ impl Smp for i16 {
             _ => rng.range(-32768, 32767),
         }) as i16 as u16 as u64
     }
+    fn raw_of(x: f64) -> u64 { ((x * 32768.0).round().max(-32768.0).min(32767.0) as i16) as u16 as u64 }
 }
 impl Smp for u8 {
     const NAME: &'static str = "u8";
@@ -136,6 +143,7 @@ impl Smp for u8 {
             _ => rng.range(0, 255),
         }) as u64
     }
+    fn raw_of(x: f64) -> u64 { (x * 128.0 + 128.0).round().max(0.0).min(255.0) as u64 }
 }
 
 fn tok<X: Flt>(x: X) -> String { if x.nan() { "nan".into() } else { x.bits().to_string() } }
@@ -158,11 +166,15 @@ struct Ref {
     m: f64,
     /// a square or the running sum left the float format: the state is inf/NaN until the next reset
     poisoned: bool,
+    /// every input is a multiple of 2^-4 in [-1, 1] and N <= 1000: squares and all running sums are multiples of
+    /// 2^-8 below 2^24 * 2^-8, i.e. the running sum is computed WITHOUT any rounding in f32 and f64
+    exact: bool,
 }
 impl Ref {
-    fn new(n: usize) -> Ref { Ref { hist: std::iter::repeat(0.0).take(n).collect(), k: 0, m: 0.0, poisoned: false } }
+    fn new(n: usize) -> Ref { Ref { hist: std::iter::repeat(0.0).take(n).collect(), k: 0, m: 0.0, poisoned: false, exact: false } }
     fn sum(&self) -> f64 { self.hist.iter().map(|x| x * x).sum() }
     fn push(&mut self, x: f64, maxf: f64) {
+        if self.exact && !((x * 16.0).fract() == 0.0 && x.abs() <= 1.0 && self.hist.len() <= 1000) { self.exact = false; }
         let p = self.sum() + x * x;
         if !(p < maxf * 0.99) { self.poisoned = true; }
         if p > self.m { self.m = p; }
@@ -175,6 +187,8 @@ impl Ref {
     /// explicit bound on |mean computed by the running-sum code − exact mean| (derivation: props/C11.json "float_bound")
     fn tol<X: Flt>(&self) -> f64 {
         let n = self.hist.len() as f64;
+        // exact-grid histories: no rounding in the running sum at all; one rounding in the division
+        if self.exact { return 2.0 * X::U * self.m / n + 4.0 * X::TINY; }
         let c = 2.2 * self.k as f64 + n + 8.0;
         c * X::U * self.m / n + c * X::TINY
     }
@@ -379,6 +393,108 @@ fn run_rms(a: &Args) {
     st.note(&format!("float error bound (TEST, measured): |mean_impl - mean_exact| <= ((2.2 k + N + 8) u M) / N with k = frames since reset, M = max window sum incl. the incoming square, u = 2^-24 / 2^-53; largest observed deviation / bound = {:.4}", tally.max_ratio));
     if NOSTD { st.note(&format!("no_std build: largest relative deviation of next()/current() from the true RMS (where the true RMS is well above the drift bound): {:.5} (limit 0.07)", tally.max_rel_root)); }
     st.note(&format!("window-sum-returns-to-zero events (clamp / cancellation candidates): {}", tally.clamp_candidates));
+    st.finish();
+}
+
+
+// ---------------------------------------------------------------------------------------------
+// very long histories through ONE detector without reset (hundreds of thousands to millions of frames),
+// every output checked natively against the naive recomputation over the last N inputs
+
+fn long_run<F>(st: &mut Stream, tally: &mut Tally, rng: &mut Rng, n: usize, len: usize, grid: bool, run: usize)
+where
+    F: Frame + 'static,
+    F::Sample: Smp,
+    <F::Float as Frame>::Sample: Flt,
+{
+    type X<F> = <<F as Frame>::Float as Frame>::Sample;
+    let ch = F::CHANNELS;
+    // non-constant, non-periodic input: noise under a slowly wandering level; `grid` = multiples of 2^-4 (exact arithmetic)
+    let mut level = vec![0.5f64; ch];
+    let mut gen_frame = |rng: &mut Rng, i: usize| -> Vec<u64> {
+        (0..ch).map(|c| {
+            if i % 97 == 0 { level[c] = 0.05 + 0.95 * rng.f64_unit(); }
+            let x = if grid { ((rng.range(-16, 16) as f64 * level[c]).round()) / 16.0 } else { (rng.f64_unit() * 2.0 - 1.0) * level[c] };
+            <F::Sample as Smp>::raw_of(x)
+        }).collect()
+    };
+    // a short prefix also goes through the model (same inputs, a detector of its own)
+    let mut prng = rng.clone();
+    let prefix: Vec<Op> = (0..len.min(48)).map(|i| Op::Next(gen_frame(&mut prng, i))).collect();
+    exec_case::<F>(st, tally, n, &prefix, "rms");
+    let desc = format!("long {} {} ch={} N={} len={} input={} run={} (stream `long`, this seed)", X::<F>::NAME, MODE, ch, n, len, if grid { "grid/16" } else { "noise" }, run);
+    let mut refs: Vec<Ref> = (0..ch).map(|_| { let mut r = Ref::new(n); r.exact = grid; r }).collect();
+    let fails_before = st.oracle_failures.len();
+    let res = guarded(|| {
+        let mut rms: Rms<F, Vec<F::Float>> = Rms::new(Fixed::from(vec![F::Float::EQUILIBRIUM; n]));
+        let mut checked = 0u64;
+        for i in 0..len {
+            let raw = gen_frame(rng, i);
+            let fr = F::from_fn(|c| <F::Sample as Smp>::from_raw(raw[c]));
+            let squared = i % 8 == 7;
+            let out = if squared { rms.next_squared(fr) } else { rms.next(fr) };
+            for (c, s) in fr.channels().enumerate() { refs[c].push(s.exact(), X::<F>::MAXF); }
+            // the naive recomputation costs O(N): for big windows check a fifth of the frames, and every frame around multiples of 2^16
+            let near = { let m = (i + 1) % 65536; m < 2 * n + 8 || m > 65536 - 8 };
+            if n <= 64 || near || i % 5 == 0 || i + 2 * n + 8 >= len {
+                for (c, o) in out.channels().enumerate() {
+                    if st.oracle_failures.len() >= fails_before + 3 { break; }
+                    let last: Vec<String> = refs[c].hist.iter().rev().take(8).map(|x| format!("{:e}", x)).collect();
+                    check_out::<X<F>>(st, tally, &refs[c], o, squared, &format!("{} frame={} newest-first last inputs of channel {}: [{}]", desc, i, c, last.join(", ")), &format!("channel {} at frame {}", c, i));
+                    checked += 1;
+                }
+            }
+        }
+        checked
+    });
+    match res {
+        Some(c) => { st.count_n("long:outputs-checked", c); st.count_n("long:frames", len as u64); }
+        None => st.oracle_fail("Rms panicked in a long history", &desc, "no panic", "panic"),
+    }
+    st.count(&format!("long:N={}", n));
+    st.count(if len >= (1 << 21) { "long:len>=2^21" } else if len >= (1 << 18) + n { "long:len>=2^18+N" } else { "long:len<2^18" });
+    st.count(if grid { "long:input=grid (exact, zero drift tolerance)" } else { "long:input=noise" });
+}
+
+fn run_long(a: &Args) {
+    let mut st = Stream::new(&a.out, "long");
+    let mut rng = Rng::new(a.seed, "long");
+    let mut tally = Tally { max_ratio: 0.0, max_rel_root: 0.0, clamp_candidates: 0 };
+    let base = (1usize << 18) + 1500;   // past 2^18 + N for every N used
+    let mut run = 0;
+    let mut go = |st: &mut Stream, tally: &mut Tally, rng: &mut Rng, which: usize, n: usize, len: usize, grid: bool| {
+        run += 1;
+        match which {
+            0 => long_run::<f32>(st, tally, rng, n, len, grid, run),
+            1 => long_run::<f64>(st, tally, rng, n, len, grid, run),
+            2 => long_run::<[f32; 2]>(st, tally, rng, n, len, grid, run),
+            3 => long_run::<[f64; 2]>(st, tally, rng, n, len, grid, run),
+            _ => long_run::<i16>(st, tally, rng, n, len, grid, run),
+        }
+    };
+    // quick tier: every window class once beyond 2^18 + N, both input kinds, both float formats
+    for &(which, n, grid) in &[(0usize, 3usize, true), (1, 3, false), (2, 16, true), (1, 64, false), (0, 64, true), (3, 1, false), (0, 1000, true), (1, 1000, false), (4, 7, false), (0, 4, false)] {
+        let len = base + rng.usize_below(4096);
+        go(&mut st, &mut tally, &mut rng, which, n, len, grid);
+    }
+    // a few shorter ones with random windows
+    for _ in 0..6 {
+        let n = *rng.pick(&[1usize, 2, 3, 4, 7, 16, 64]);
+        let which = rng.usize_below(5); let grid = rng.chance(1, 2);
+        let len = 20_000 + rng.usize_below(60_000);
+        go(&mut st, &mut tally, &mut rng, which, n, len, grid);
+    }
+    if a.thorough() {
+        for &(which, n, grid) in &[(0usize, 3usize, true), (1, 16, false), (2, 64, true), (1, 1000, false), (0, 1000, true), (3, 2, false), (0, 7, false)] {
+            let len = (1usize << 21) + 3000 + rng.usize_below(100_000);
+            go(&mut st, &mut tally, &mut rng, which, n, len, grid);
+        }
+        for &(which, n, grid) in &[(1usize, 4usize, false), (0, 16, true)] {
+            let len = (1usize << 19) + 5000 + rng.usize_below(1 << 19);
+            go(&mut st, &mut tally, &mut rng, which, n, len, grid);
+        }
+    }
+    st.note(&format!("long histories through one detector without reset; tolerance = the running-sum bound of props/C11.json \"float_bound\" (grows linearly with the number of frames k) or, for inputs on the 2^-4 grid where every running sum is exact, 2u*M/N; largest observed deviation / bound = {:.4}", tally.max_ratio));
     st.finish();
 }
 
@@ -589,6 +705,7 @@ fn main() {
     }
     match a.stream.as_str() {
         "rms" | "rms_nostd" => run_rms(&a),
+        "long" => run_long(&a),
         "sig" => run_sig(&a),
         "sqrt" | "sqrt_nostd" => run_sqrt(&a),
         s => { eprintln!("unknown stream {}", s); std::process::exit(2); }
